@@ -296,6 +296,7 @@ class _Run:
         try:
             item = next(it)
             n["r"], n["item"] = "item", enc(item)
+            self.committed = True  # the server stub sends the headers with the first chunk
         except StopIteration:
             n["r"] = "stop"
         except Exception as e:
